@@ -59,7 +59,7 @@ def theta_fraction(x):
 
 
 CONFIGS = [  # (steps, burn)
-    (48, 16), (40, 8), (24, 8), (80, 16), (20, 4), (36, 4),
+    (48, 16), (40, 8), (24, 8), (80, 16), (20, 4), (36, 4), (12, 4), (10, 2), (6, 2),
 ]
 THETAS = [0.6, 0.5, 0.75, 0.3, 0.9]
 
@@ -85,7 +85,7 @@ def run(task):
     idx = task["index"]
     which = ("assemble", "call", "call-pedigree")[idx % 3]
     steps, burn = rnd.choice(CONFIGS)
-    chains = rnd.choice([1, 2, 2, 3])
+    chains = rnd.choice([1, 2, 2, 3, 2, 3])
     theta = rnd.choice(THETAS)
     deep = rnd.random() < 0.5
     bams = [data_path("simple.sample%d%s.bam" % (i, ".deep" if deep else "")) for i in (1, 2, 3)]
